@@ -41,9 +41,9 @@ type PS struct {
 	LockProbe    func(id partstore.PartId, write bool) bool
 	LockDisagree int
 	readers      map[string]int
-	writers   map[string]bool
-	LockWaits int
-	alias     map[string]int
+	writers      map[string]bool
+	LockWaits    int
+	alias        map[string]int
 
 	mu    sync.Mutex
 	Calls map[string]int
@@ -171,6 +171,14 @@ func (p *PS) count(op string) {
 	p.mu.Lock()
 	p.Calls[op]++
 	p.mu.Unlock()
+}
+
+// CallCount returns how many calls of op (PutPart, GetPart, GetPartIds,
+// DeletePart) entered this seam so far.
+func (p *PS) CallCount(op string) int {
+	p.mu.Lock()
+	defer p.mu.Unlock()
+	return p.Calls[op]
 }
 
 func (p *PS) Start(ctx context.Context) error { return p.Inner.Start(ctx) }
